@@ -1,7 +1,7 @@
 (* Properties/C02.v -- Encoder output is a conformant ISO/IEC 16022 data codeword stream (the parts that are theorems). *)
 From Coq Require Import Arith NArith List Bool.
 From DM Require Import Generated.Symbols Generated.ModeTables Spec.GF256 Spec.RSCode Model.Outcome Model.SymbolList Model.Planner Model.Enc
-  Model.RSEnc Model.GF Model.PlannerRun Model.Api Proofs.SymbolListProofs Proofs.RSEncProofs Proofs.RSEncLen Proofs.EncLocal Proofs.EncTop Spec.Stream16022 Spec.Recognise Model.Dec Proofs.EncAscii Proofs.PlanAscii Proofs.EncB256 Proofs.DecScript Proofs.Certify Proofs.EncAB Proofs.EncAX.
+  Model.RSEnc Model.GF Model.PlannerRun Model.Api Proofs.SymbolListProofs Proofs.RSEncProofs Proofs.RSEncLen Proofs.EncLocal Proofs.EncTop Spec.Stream16022 Spec.Recognise Model.Dec Proofs.EncAscii Proofs.PlanAscii Proofs.EncB256 Proofs.DecScript Proofs.Certify Proofs.EncAB Proofs.EncAX Proofs.EncAC.
 Import ListNotations.
 Local Open Scope N_scope.
 
@@ -169,6 +169,33 @@ Theorem C02_fnc1_ax_conformant : forall sorter data symbols modes use_macros cw 
   exists script npad, script_ok script npad = true /\ cw = stream_with 232 script npad /\ meaning script = data /\ Forall ax_seg script.
 Proof. intros so d sy mo um cw s HS HM OK H. exact (proj1 (fnc1_ax_roundtrip so d sy mo um cw s HS HM OK H)). Qed.
 Print Assumptions C02_fnc1_ax_conformant.
+
+(* the same for every mode set within {ASCII, C40} (text = false) and within {ASCII, Text} (text = true): Proofs/EncAC.v *)
+Theorem C02_ac_conformant : forall (text : bool) sorter data symbols modes cw s,
+  (forall k l l', sorter symbols k l = Ok l' -> incl l' l) ->
+  (forall mo, enabled modes mo = true -> mo = Ascii \/ mo = (if text then Text else C40)) -> bytes_ok data = true ->
+  encode_data_internal (optimize_fn sorter) data symbols None modes false false = Ok (cw, s) ->
+  exists script npad, script_ok script npad = true /\ cw = stream script npad /\ meaning script = data /\ Forall (ac_seg text) script.
+Proof. intros t so d sy mo cw s HS HM OK H. exact (proj1 (ac_modes_roundtrip t so d sy mo cw s HS HM OK H)). Qed.
+Print Assumptions C02_ac_conformant.
+
+Theorem C02_macro_ac_conformant : forall (text : bool) sorter data symbols modes body m head cw s,
+  (forall k l l', sorter symbols k l = Ok l' -> incl l' l) ->
+  (forall mo, enabled modes mo = true -> mo = Ascii \/ mo = (if text then Text else C40)) -> bytes_ok body = true ->
+  (m = MACRO05 /\ head = MACRO05_HEAD) \/ (m = MACRO06 /\ head = MACRO06_HEAD) ->
+  data = head ++ body ++ MACRO_TRAIL ->
+  encode_data_internal (optimize_fn sorter) data symbols None modes true false = Ok (cw, s) ->
+  exists script npad, script_ok script npad = true /\ cw = stream_with m script npad /\ meaning script = body /\ Forall (ac_seg text) script.
+Proof. intros t so d sy mo b m h cw s HS HM OK HH HD H. exact (proj1 (macro_ac_roundtrip t so d sy mo b m h cw s HS HM OK HH HD H)). Qed.
+Print Assumptions C02_macro_ac_conformant.
+
+Theorem C02_fnc1_ac_conformant : forall (text : bool) sorter data symbols modes use_macros cw s,
+  (forall k l l', sorter symbols k l = Ok l' -> incl l' l) ->
+  (forall mo, enabled modes mo = true -> mo = Ascii \/ mo = (if text then Text else C40)) -> bytes_ok data = true ->
+  encode_data_internal (optimize_fn sorter) data symbols None modes use_macros true = Ok (cw, s) ->
+  exists script npad, script_ok script npad = true /\ cw = stream_with 232 script npad /\ meaning script = data /\ Forall (ac_seg text) script.
+Proof. intros t so d sy mo um cw s HS HM OK H. exact (proj1 (fnc1_ac_roundtrip t so d sy mo um cw s HS HM OK H)). Qed.
+Print Assumptions C02_fnc1_ac_conformant.
 
 
 (* (vi) for the other plans conformance is decided per output by a certificate whose check is proved sound here: the
